@@ -505,7 +505,8 @@ Record en_spec := mk_en { e_g1 : bytes; e_c : Z; e_t : bytes; e_w1 : bytes; e_w2
 Definition en_ok (e : en_spec) : Prop :=
   run_of p_blank (e_g1 e) /\ ascii (e_c e) /\ p_start (e_c e) = true /\ run_of p_cont (e_t e)
   /\ run_of p_wsnl (e_w1 e) /\ run_of p_wsnl (e_w2 e) /\ evs_ok (e_vs e)
-  /\ run_of p_blank (e_g3 e) /\ run_of p_wsnl (e_w e).
+  /\ run_of p_blank (e_g3 e) /\ run_of p_wsnl (e_w e)
+  /\ enum_overflow (map ev_pair (e_vs e)) 0 false = None.
 Definition render_enum (e : en_spec) (more : bytes) : bytes :=
   lit_enum ++ e_g1 e ++ (e_c e :: e_t e) ++ e_w1 e ++ 123 :: e_w2 e
   ++ render_evs (e_vs e) (125 :: e_g3 e ++ 10 :: e_w e ++ more).
@@ -532,7 +533,7 @@ Lemma enum_rule : forall e more cr o es fr,
   exists o', evals (CRef 7) cr (st_of (render_enum e more) o es) fr
                    (Done true (VEnum (enum_of e)) (st_of (e_w e ++ more) o' es) fr).
 Proof.
-  intros [g1 c t w1 w2 vs g3 w] more cr o es fr (Hg1 & Hc & Hp & Ht & Hw1 & Hw2 & Hvs & Hg3 & Hw) Hm.
+  intros [g1 c t w1 w2 vs g3 w] more cr o es fr (Hg1 & Hc & Hp & Ht & Hw1 & Hw2 & Hvs & Hg3 & Hw & Hov) Hm.
   unfold render_enum, enum_of. cbn [e_g1 e_c e_t e_w1 e_w2 e_vs e_g3 e_w] in *.
   destruct enum_shapes as (H7 & _).
   set (tail := g3 ++ 10 :: w ++ more).
@@ -578,7 +579,7 @@ Proof.
     apply S_nil.
   - unfold finish_action, run_action, run_action_opt.
     cbn [fget find fst snd String.eqb Ascii.eqb Bool.eqb to_iface_slice as_ident to_anns obind app rev].
-    rewrite (collect_values vs lvs Hmap). reflexivity.
+    rewrite (collect_values vs lvs Hmap). cbn [obind]. rewrite Hov. reflexivity.
 Qed.
 
 (** ** files that mix typedefs of base types and enums *)
@@ -646,8 +647,8 @@ Qed.
 Lemma decl_w_ok : forall d, decl_ok d -> run_of p_wsnl (decl_w d).
 Proof.
   intros [t|e] H; cbn [decl_ok decl_w] in *.
-  - destruct H as (_ & _ & _ & _ & _ & _ & _ & Hw). exact Hw.
   - destruct H as (_ & _ & _ & _ & _ & _ & _ & _ & Hw). exact Hw.
+  - destruct H as (_ & _ & _ & _ & _ & _ & _ & _ & Hw & _). exact Hw.
 Qed.
 
 Lemma decls_loop : forall ds o es fr acc,
